@@ -74,13 +74,13 @@ FieldBase(t) ==
       [] t = "PendingEtxsRollup" -> <<"post", "typ">>
 
 CodecsOf(t) ==
-    CASE t = "Header" -> {"json", "proto", "rpcjson"}
+    CASE t = "Header" -> {"proto", "rpcjson"}
       [] t = "AuxPow" -> {"proto", "rpcjson"}
-      [] t = "WOHeader" -> {"json", "proto", "rpcjson"}
-      [] t = "Receipt" -> {"db", "json", "proto", "rlpstore"}
+      [] t = "WOHeader" -> {"proto", "rpcjson"}
+      [] t = "Receipt" -> {"db", "proto"}
       [] t = "TxOut" -> {"proto"}
       [] t = "UtxoEntry" -> {"db", "spent"}
-      [] t = "Termini" -> {"db", "json", "proto"}
+      [] t = "Termini" -> {"db", "proto", "rpcjson"}
       [] t = "AuxTemplate" -> {"gossip"}
       [] t = "P2PRequest" -> {"p2p"}
       [] t = "P2PHashResponse" -> {"gossip", "p2p"}
@@ -88,7 +88,7 @@ CodecsOf(t) ==
       [] t = "QuaiTx" -> {"json", "proto", "rlp", "rlpenv"}
       [] t = "QiTx" -> {"json", "proto", "rlp", "rlpenv"}
       [] t = "ExtTx" -> {"db", "json", "proto", "rlp", "rlpenv"}
-      [] t = "WOBlock" -> {"db", "gossip", "json", "p2p", "p2plist", "proto"}
+      [] t = "WOBlock" -> {"db", "gossip", "p2p", "p2plist", "proto", "rpcjson"}
       [] t = "WOHeaderView" -> {"convert", "gossip", "p2p", "proto"}
       [] t = "WOPEtx" -> {"proto"}
       [] t = "WOShare" -> {"convert", "gossip", "proto"}
